@@ -379,6 +379,11 @@ def isOk {α} : Except Outcome α → Bool
   | .ok _ => true
   | .error _ => false
 
+/-- the exception a result carries, if any -/
+def errOf {α} : Except Outcome α → Option Outcome
+  | .ok _ => none
+  | .error e => some e
+
 /-- the trace of `write_arrays` split into its phases: `D` guard (deletion of the old geff), `W` the
 arrays, `C` the metadata write (commit), `X` the clean-up after a failed validation -/
 structure Phases where
